@@ -38,6 +38,9 @@ type gateIn struct {
 	Cred       credIn     `json:"cred"`
 	XFF        []string   `json:"xff"`
 	NoRoute    bool       `json:"noroute"`
+	Redirect   string     `json:"redirect"` // redirect= option ("" = none); a 3xx value makes fabio answer itself
+	Strip      string     `json:"strip"`
+	HostOpt    string     `json:"host"`
 }
 
 type gateEnv struct {
@@ -126,7 +129,17 @@ func setupGate() (*gateEnv, error) {
 	hp := &proxy.HTTPProxy{
 		Config:    config.Proxy{},
 		Transport: &http.Transport{DisableKeepAlives: true},
-		Lookup:    func(*http.Request) *route.Target { return e.lookup() },
+		Lookup: func(r *http.Request) *route.Target {
+			t := e.lookup()
+			if t != nil && t.RedirectCode != 0 {
+				// as route.Table.Lookup does for a redirect route
+				r.URL.Host = r.Host
+				cp := *t
+				cp.BuildRedirectURL(r.URL)
+				t = &cp
+			}
+			return t
+		},
 	}
 	front := http.HandlerFunc(func(w http.ResponseWriter, r *http.Request) {
 		e.mu.Lock()
@@ -228,6 +241,13 @@ func runGate(raw json.RawMessage) (interface{}, error) {
 	if in.Scheme != "" {
 		opts["auth"] = in.Scheme
 	}
+	if in.Proto == "http" {
+		for k, v := range map[string]string{"redirect": in.Redirect, "strip": in.Strip, "host": in.HostOpt} {
+			if v != "" {
+				opts[k] = v
+			}
+		}
+	}
 	var tgt *route.Target
 	if !in.NoRoute {
 		tgt = route.VerifC12AddTarget(up, opts) // the route table's own path
@@ -248,7 +268,7 @@ func runGate(raw json.RawMessage) (interface{}, error) {
 	outcome := ""
 	switch in.Proto {
 	case "http":
-		req, _ := http.NewRequest("GET", "http://c12.test/", nil)
+		req, _ := http.NewRequest("GET", "http://c12.test/p/x", nil)
 		for _, l := range in.XFF {
 			req.Header.Add("X-Forwarded-For", l)
 		}
@@ -293,6 +313,7 @@ func runGate(raw json.RawMessage) (interface{}, error) {
 	// a refused client has seen EOF/its status only after ServeTCP/ServeHTTP decided; give a wrongly started
 	// dial a moment to land before reading the counter
 	if outcome != "200" && outcome != "echo" {
+		// (also for 3xx: a redirect route must not touch the upstream at all)
 		time.Sleep(2 * time.Millisecond)
 	}
 	hits := e.hits.Load() - before
@@ -347,6 +368,15 @@ func genGate(r *hx.Rand) gateIn {
 			a.Scheme = ""
 		}
 		in.Scheme, in.Registered, in.Cred = a.Scheme, a.Registered, a.Cred
+		if r.Chance(1, 3) {
+			in.Redirect = r.Pick([]string{"301", "302", "307", "308", "301", "399", "200", "abc"})
+		}
+		if r.Chance(1, 4) {
+			in.Strip = "/p"
+		}
+		if r.Chance(1, 4) {
+			in.HostOpt = r.Pick([]string{"dst", "h.c12.test"})
+		}
 	}
 	in.NoRoute = r.Chance(1, 25)
 	return in
@@ -364,6 +394,12 @@ func init() {
 			gateIn{Proto: "http", Via: "v4", Scheme: "nope", Secrets: defaultSecrets, Registered: []string{"basic"}, XFF: []string{}, Cred: credIn{"basic", "alice", "secret"}},
 			gateIn{Proto: "http", Via: "v4", Scheme: "basic", Secrets: defaultSecrets, Registered: []string{"basic"}, XFF: []string{}, Cred: credIn{"basic", "alice", "secret"}},
 			gateIn{Proto: "http", Via: "v4", Scheme: "basic", Secrets: defaultSecrets, Registered: []string{"basic"}, XFF: []string{}, Cred: credIn{"basic", "alice", "wrong"}},
+			gateIn{Proto: "http", Via: "v4", Allow: "ip:10.0.0.0/8", Redirect: "301", Secrets: defaultSecrets, Registered: []string{}, XFF: []string{}, Cred: none},
+			gateIn{Proto: "http", Via: "v4", Allow: "ip:127.0.0.0/8", Redirect: "302", Strip: "/p", Secrets: defaultSecrets, Registered: []string{}, XFF: []string{"9.9.9.9"}, Cred: none},
+			gateIn{Proto: "http", Via: "v4", Scheme: "basic", Redirect: "301", HostOpt: "dst", Secrets: defaultSecrets, Registered: []string{"basic"}, XFF: []string{}, Cred: none},
+			gateIn{Proto: "http", Via: "v4", Scheme: "nope", Redirect: "308", Secrets: defaultSecrets, Registered: []string{}, XFF: []string{}, Cred: credIn{"basic", "alice", "secret"}},
+			gateIn{Proto: "http", Via: "v4", Allow: "ip:127.0.0.0/8", Scheme: "basic", Redirect: "301", Secrets: defaultSecrets, Registered: []string{"basic"}, XFF: []string{}, Cred: credIn{"basic", "alice", "secret"}},
+			gateIn{Proto: "http", Via: "v4", Deny: "ip:bad", Redirect: "301", Secrets: defaultSecrets, Registered: []string{}, XFF: []string{}, Cred: none},
 			gateIn{Proto: "tcp", Via: "v4", Deny: "ip:127.0.0.1", Secrets: defaultSecrets, Registered: []string{}, XFF: []string{}, Cred: none},
 			gateIn{Proto: "tcp", Via: "v4", Deny: "ip:bad,ip:127.0.0.1", Secrets: defaultSecrets, Registered: []string{}, XFF: []string{}, Cred: none},
 			gateIn{Proto: "sni", Via: "v6", Allow: "ip:127.0.0.0/8", Secrets: defaultSecrets, Registered: []string{}, XFF: []string{}, Cred: none},
